@@ -19,4 +19,4 @@ Deliverables (all inside {d}):
 2. `demo.py` = a small standalone program (run as `cd {d} && PYTHONPATH={d} /venv/bin/python demo.py`) that exits 0 on the unmodified code and exits non-zero (with a short message showing the violated expectation) on the modified code. It must test the property as stated, with an oracle that does not depend on your knowledge of the change.
 3. `meta.json` = {{"property": "{pid}", "summary": one sentence, "needs_to_manifest": what specific sequence/input/configuration is required, "files_changed": [...]}}.
 
-Verify yourself before finishing: (a) with the change applied, the pinned suite still passes: `cd {d} && /venv/bin/python -m pytest -q -p no:cacheprovider --timeout=900 --continue-on-collection-errors 2>&1 | tail -1` must report `280 passed` (the hundreds of collection *errors* are normal and also present without the change); (b) demo.py exits non-zero with the change; (c) `git stash` the change, demo.py exits 0, `git stash pop`. Leave the worktree with the change applied and the three files present. Reply with the summary, the diff, and the outputs of (a)-(c).""".format(d=d, pid=pid))
+Verify yourself before finishing: (a) with the change applied, the pinned suite still passes: `cd {d} && /venv/bin/python -m pytest -q -p no:cacheprovider --timeout=900 --continue-on-collection-errors 2>&1 | tail -1` must report `280 passed` (the hundreds of collection *errors* are normal and also present without the change); (b) demo.py exits non-zero with the change; (c) save the change with `git diff > patch.diff`, revert with `git checkout -- miasm` (do NOT use `git stash`: the stash is shared with other worktrees), demo.py exits 0, re-apply with `git apply patch.diff`. Leave the worktree with the change applied and the three files present. Reply with the summary, the diff, and the outputs of (a)-(c).""".format(d=d, pid=pid))
